@@ -28,6 +28,10 @@ CHECKS = {
    text="Theorems over a line-level model of the data file (loader _process_lines/_parse_data_line, writer of one recording session, column codec): whatever a session appends to a loadable file is read back as exactly the data points it recorded - each once, whole, in order, for the right run - and nothing else; the appended text starts with the metadata block, has the column header iff the file was empty and nowhere else; earlier lines are a prefix; a measurement line's columns are read back exactly whatever characters they contain. Tied to the real persistence by in-process sessions on 1-3 experiments x 1-3 data files x histories: the bytes appended, classified independently, must equal Model.session_lines, and the real loader must agree with Model.load on every file.",
    note="PARTIAL: run and benchmark identities are abstract keys at the line level (their JSON is C07); profile data files are not exercised (no perf in the sandbox); password removal has an oracle only (fake git on PATH), urllib.parse is outside the model. Trusted: the harness's independent classification of file bytes into abstract lines.",
    technique="Rocq proof (writer/loader simulation invariant by induction over data points) + byte-level correspondence on real data files"),
+ "C07": dict(
+   text="Theorems over the line-level model of the data file for histories of any number of sessions: the file stays loadable, and what a follow-up session loads is exactly what the earlier sessions recorded (invocation, iteration, total/criterion kind, value, run), each once and in order; record ids are positions (the loader's tables only grow by the records a session wrote); the column codec is lossless for arbitrary characters and never emits a line end. Tied to the real persistence by (a) the column codec character by character on generated column lists, (b) 4-session histories (record with an interruption, resume, reload, reload) on configurations whose values flow into the identity and outputs whose criteria/units flow into the TSV columns, with Model.load compared with the real loader on every final file.",
+   note="PARTIAL: the identity of a run as a whole (as_dict / from_dict / __eq__ / __hash__ of seven classes through json) is an abstract key in the model; that a reloaded record equals the configured run is decided by the session oracle on generated configurations (typed and falsy variable values, ~, %, tabs, line ends, unicode, builds, descriptions, machines), not by a theorem. '%f' rounding of values is compared to 6 decimals.",
+   technique="Rocq proof (induction over sessions on top of the writer/loader simulation; character-level induction for the codec) + codec and loader correspondence + multi-session oracle"),
  "C12": dict(
    text="Theorems for every output text, every Unicode classification and both include-faulty settings: each of the six built-in adapters (seven parse variants) returns a reject or a non-empty list of data points with exactly one 'total', last, and no other exception; a failure marker reached before an accepting exit rejects as invalid unless faulty results were requested; generic version for any adapter written with the common loop. The regular expressions are regenerated from the source on every run; the hand-written loops are tied to the real parse_data by grammar-guided near-misses, splices and random strings, and the regex engine is compared with CPython's re.",
    note="Trusted: Gallina regex engine + tr_regex.py (both validated against re each run), CPython float()/int() on extracted tokens, palette of non-ASCII characters for the executable instance (theorems hold for arbitrary classes).",
